@@ -5918,7 +5918,11 @@ class CodegenCtx:
                             contents.add(f"state->c.{out_expr.name} = malloc({self._generate_buflike_length_expr(out_expr)});")
                         contents.add(self._generate_set_string(out_expr.default_value, out_expr))
                     else:
-                        contents.add(f"state->c.{out_expr.name} = {self._generate_code_for_int_expr(out_expr.default_value, IntegerExprUseContext.ASSIGN_INITIAL, out_expr)};")
+                        value = self._generate_code_for_int_expr(out_expr.default_value, IntegerExprUseContext.ASSIGN_INITIAL, out_expr)
+                        if out_expr.holds_a(OutputStorageType.INT):
+                            # explicit conversion to the declared width, like for assignments
+                            value = f"({self._integer_containing(signed=out_expr.int_signed, width=out_expr.int_width)})({value})"
+                        contents.add(f"state->c.{out_expr.name} = {value};")
 
             # Set starting state
             contents.add("// set starting state")
